@@ -4,6 +4,8 @@ still passes), store it under /verif/seeded/<id>/, then run the property's check
 (and undo it straight afterwards)."""
 import json
 import os
+
+os.environ.setdefault("VERIF_EVIDENCE_DIR", os.path.join(os.path.dirname(os.path.dirname(os.path.abspath(__file__))), ".cache", "seed_evidence"))
 import re
 import shutil
 import subprocess
